@@ -1,6 +1,6 @@
 (* C03 — the protoc plugin's output implements the schema.
-   Property-level statements only; every proof is a single [exact] of a lemma from Proofs/PluginP.v or
-   Proofs/PluginWitP.v, followed by Print Assumptions.
+   Property-level statements only; every proof is a single [exact] of a lemma from Proofs/PluginP.v,
+   Proofs/PluginWitP.v or Proofs/C03Bridge{A,B,C,D,E,Wit}.v, followed by Print Assumptions.
 
    Reading guide
      descriptor          Spec/Descriptor.v   FileDescriptorSet as protoc emits it (any number of files, messages, nesting depth)
@@ -14,10 +14,22 @@
      names_ok            Proofs/PluginP.v    the naming side conditions; each conjunct is a known-finding class when false:
                                              pkg_names_ok (K2), flat_dotted_ok + class_nodup (K1), fields_nodup + members_nodup (K8),
                                              map_keys_ok (K13), wraps_ok (K14)
+     schema_of_table     Model/C03Bridge.v   THE BRIDGE to the runtime codec model (Model/Object.v): the class table as a runtime
+                                             schema, numbered the way harness/msggen.py numbers it (11 bundled classes, one cdesc per
+                                             message class, synthetic Entry classes after them, enum table, references by index)
+     table_ok, bridge_ok Model/C03Bridge.v   decidable side conditions of the bridge on a table / on a descriptor set (each conjunct
+                                             of bridge_ok is marked there: guaranteed by protoc / limit of the runtime model's
+                                             wf_schema / outside the classes the runtime model has)
+     c01_schema_ok       Model/C01Def.v      the schema hypothesis of the runtime theorems (C01 C02 C04 C08 C10 ...): wf_schema +
+                                             builtins_exact + entries_ok
    The naming functions field_name / class_name / enum_member_name (pythonize_field_name, pythonize_class_name,
    pythonize_enum_member_name of compile/naming.py; property C19) are universally quantified: the theorems hold for
    EVERY choice of them that satisfies names_ok on D, and the harness evaluates names_ok with the real functions. *)
+(* the runtime model first: where it and Spec.Descriptor use the same constructor names (PyInt ...), the unqualified
+   name is Spec.Descriptor's, as in the theorems about the plugin below *)
+From BP Require Import Model.Types Model.Object Model.Eq Model.Encode Model.Decode Model.WellFormed Model.C01Def.
 From BP Require Import Base.Prelude Spec.Descriptor gen.C03Tables Model.Plugin Proofs.PluginP Proofs.PluginWitP.
+From BP Require Import Model.C03Bridge Proofs.C03BridgeA Proofs.C03BridgeC Proofs.C03BridgeD Proofs.C03BridgeE Proofs.C03BridgeWit.
 From Coq Require Import String.
 Open Scope list_scope.
 Open Scope Z_scope.
@@ -124,6 +136,123 @@ Theorem C03_wraps_refuted :
 Proof. exact wraps_refuted. Qed.
 Print Assumptions C03_wraps_refuted.
 
+(* ---- the bridge: what the plugin emits satisfies the hypotheses of the runtime theorems ----
+   Tables: a class table whose fields all have a shape the runtime model knows (table_ok: field numbers in
+   1 .. 2^29-1 and pairwise distinct per class, TYPE_ strings known, hint / proto type / wraps / optional / group /
+   map types consistent, every class reference resolvable BY NAME inside the table) is translated to a schema that
+   satisfies c01_schema_ok: class and enum indices in range, every map field's fentry is the index of its own
+   synthetic Entry class and that class is annotated like the map, group indices below cngroups, bundled classes
+   first and exact. No bound on the number of modules, classes, fields. *)
+Theorem C03_table_schema_ok :
+  forall t : class_table, table_ok t = true -> c01_schema_ok (schema_of_table t) = true.
+Proof. exact table_schema_ok. Qed.
+Print Assumptions C03_table_schema_ok.
+
+(* Descriptors: for every descriptor set protoc can emit (protoc_wf), every naming with names_ok, and bridge_ok D:
+   the class table Python builds from the plugin's output (= the one the schema denotes, C03_field_faithful)
+   satisfies table_ok, and its runtime schema satisfies c01_schema_ok. Any number of files, messages, nesting depth.
+   bridge_ok D (Model/C03Bridge.v), per message of a generated package:
+     [protoc guarantees] field numbers pairwise distinct and in 1 .. 2^29-1; map keys of an integral / bool / string
+                         kind; a repeated field is neither a oneof member nor proto3-optional; wrapper / Timestamp /
+                         Duration names are used as MESSAGE types; no field refers to a map-entry type directly;
+     [runtime model]     a wrapper-typed field (google.protobuf.Int32Value ...) is singular, outside every oneof and not
+                         proto3-optional (betterproto handles these; wf_schema, and with it the C01 .. C10 theorems, do not);
+     [runtime defect]    a map's value type is not a wrapper (C03_map_wrapper_value_refuted below: the real classes fail);
+     [no class]          no field refers to another google.protobuf type (Any, Struct, Empty, FieldMask, NullValue ...):
+                         the runtime model has only Timestamp, Duration and the nine wrappers.
+   proto2 groups are excluded by protoc_wf (a TYPE_GROUP field has no reading in class_table_of); `required` is read
+   like a singular field and needs no condition. *)
+Theorem C03_generated_schema_ok :
+  forall (field_name class_name : str -> str) (enum_member_name : str -> str -> str) (D : descriptor),
+    protoc_wf D = true -> names_ok field_name class_name enum_member_name D = true -> bridge_ok D = true ->
+    exists t, class_table_of field_name class_name enum_member_name D = Some t
+              /\ reflect (compile field_name class_name enum_member_name D) = Ok t
+              /\ table_ok t = true
+              /\ c01_schema_ok (schema_of_table t) = true.
+Proof. exact generated_schema_ok. Qed.
+Print Assumptions C03_generated_schema_ok.
+
+(* ... hence C01's round trip holds of every generated message class and every c01_value_ok value of it
+   (the conclusion of C01_roundtrip, instantiated at the generated schema; the same instantiation gives C02, C04,
+   C08, C10 ... whose schema hypothesis is c01_schema_ok or its conjunct wf_schema) *)
+Theorem C03_generated_roundtrip :
+  forall (field_name class_name : str -> str) (enum_member_name : str -> str -> str) (D : descriptor),
+    protoc_wf D = true -> names_ok field_name class_name enum_member_name D = true -> bridge_ok D = true ->
+    exists t, reflect (compile field_name class_name enum_member_name D) = Ok t /\
+      let sc := schema_of_table t in
+      forall m, c01_value_ok sc m = true ->
+        exists bs, enc_obj sc m = Ok bs /\
+          (Zlength bs < 2 ^ 64 ->
+           exists m', parse sc (ocls m) bs = Ok m' /\ m' = norm_obj sc m /\
+             (deep nan_free (PMsg m) = true -> obj_eq sc m m' = true) /\
+             (forall g, which_one_of m' g = which_one_of m g) /\
+             (sow_ok sc m = true -> obs_top sc m m' = true) /\
+             enc_obj sc m' = Ok bs).
+Proof. exact generated_roundtrip. Qed.
+Print Assumptions C03_generated_roundtrip.
+
+(* references BY INDEX are right, not merely in range: the class index schema_of_table gives to a reference to message
+   M of a generated package is the index of the class generated for M itself (its fields, in order, carry M's field
+   numbers and the Python names of M's fields), and the enum index given to a reference to enum E is the position of
+   E's own member table (member names as the plugin pythonises them, with E's numbers). Needs only that class names are
+   distinct per package (class_nodup, a conjunct of names_ok). *)
+Theorem C03_message_reference_faithful :
+  forall (field_name class_name : str -> str) (enum_member_name : str -> str -> str) (D : descriptor) (t : class_table),
+    class_table_of field_name class_name enum_member_name D = Some t -> class_nodup class_name D = true ->
+    forall pkg p m, In (SymMsg pkg p m) (symbols D) -> pkg <> google_protobuf -> md_map_entry m = false ->
+      exists c, pyty_of (class_rows t) (PyRef (module_of_package pkg) (class_name (dotted p))) = Some (PyMsg c)
+        /\ (NB <= c < NB + List.length (msg_rows (class_rows t)))%nat
+        /\ map fnum (cfields (get_class (schema_of_table t) c)) = map fd_number (md_fields m)
+        /\ map fname (cfields (get_class (schema_of_table t) c)) = map (fun x => field_name (fd_name x)) (md_fields m).
+Proof. exact message_ref_faithful. Qed.
+Print Assumptions C03_message_reference_faithful.
+
+Theorem C03_enum_reference_faithful :
+  forall (field_name class_name : str -> str) (enum_member_name : str -> str -> str) (D : descriptor) (t : class_table),
+    class_table_of field_name class_name enum_member_name D = Some t -> class_nodup class_name D = true ->
+    forall pkg p e, In (SymEnum pkg p e) (symbols D) -> pkg <> google_protobuf ->
+      exists j, pyty_of (class_rows t) (PyRef (module_of_package pkg) (class_name (dotted p))) = Some (PyEnum j)
+        /\ nth_error (enums (schema_of_table t)) j
+           = Some (mkE (map (fun nv => (enum_member_name (fst nv) (flat p), snd nv)) (ed_values e))).
+Proof. exact enum_ref_faithful. Qed.
+Print Assumptions C03_enum_reference_faithful.
+
+(* ... and the class generated for M agrees with M's descriptor FIELD BY FIELD (field_agrees, Model/C03Bridge.v): number,
+   Python name, proto type as descriptor.proto numbers it (ptype_of_dtype: no TYPE_ strings involved), for a map its key
+   and value proto types, Dict hint and no group / wraps / optional; otherwise the proto3-optional flag, the wrapped
+   scalar type read off the wrapper's NAME (wrapper_ptypes), membership in a real oneof, and the hint shape (List iff
+   repeated, Optional iff proto3-optional or wrapper-typed, plain otherwise).  Under bridge_ok (it is what excludes an
+   ENUM-typed field named like a wrapper). *)
+Theorem C03_class_faithful :
+  forall (field_name class_name : str -> str) (enum_member_name : str -> str -> str) (D : descriptor) (t : class_table),
+    class_table_of field_name class_name enum_member_name D = Some t -> class_nodup class_name D = true ->
+    bridge_ok D = true ->
+    forall pkg p m, In (SymMsg pkg p m) (symbols D) -> pkg <> google_protobuf -> md_map_entry m = false ->
+      exists c, pyty_of (class_rows t) (PyRef (module_of_package pkg) (class_name (dotted p))) = Some (PyMsg c)
+        /\ Forall2 (field_agrees field_name pkg p m) (md_fields m) (cfields (get_class (schema_of_table t) c)).
+Proof. exact class_faithful. Qed.
+Print Assumptions C03_class_faithful.
+
+(* bridge_ok cannot be dropped.  `map<string, google.protobuf.Int32Value> mw = 1;`: protoc accepts it, the plugin
+   compiles it as the specification says (hint Dict[str, Optional[int]], map_types (string, message), nowhere to record
+   that the VALUE is wrapped), and the generated schema is not wf: a REAL defect, the generated class cannot parse
+   the bytes the reference writes for {"a": 1} (AttributeError: 'int' object has no attribute 'parse') and writes wrong
+   bytes itself (known finding K34, replayed against the real classes on every run) *)
+Theorem C03_map_wrapper_value_refuted :
+  protoc_wf D_map_wrapper = true /\ names_ok w_field_name w_class_name w_member_name D_map_wrapper = true
+  /\ bridge_ok D_map_wrapper = false
+  /\ exists t, class_table_of w_field_name w_class_name w_member_name D_map_wrapper = Some t
+               /\ reflect (compile w_field_name w_class_name w_member_name D_map_wrapper) = Ok t
+               /\ table_ok t = false /\ wf_schema (schema_of_table t) = false.
+Proof. exact map_wrapper_value_not_wf. Qed.
+Print Assumptions C03_map_wrapper_value_refuted.
+
+(* ... and two shapes that betterproto handles but the runtime MODEL does not cover: `repeated google.protobuf.Int32Value`
+   (wf_schema has no wrapped list elements) and a field of type google.protobuf.Any (no class for it in the model) *)
+Theorem C03_bridge_scope_refuted : gen_not_wf D_rep_wrapper /\ gen_not_wf D_any.
+Proof. exact (conj rep_wrapper_not_wf any_ref_not_wf). Qed.
+Print Assumptions C03_bridge_scope_refuted.
+
 (* ---- non-vacuity ---- *)
 (* a schema with nesting, recursion, two maps, a oneof, proto3 optional, repeated, a negative enum number,
    Timestamp and a wrapper satisfies both premises of C03_field_faithful ... *)
@@ -156,3 +285,38 @@ Example C03_ex_bundled :
 Proof. exact bundled_nonvacuous. Qed.
 Example C03_ex_parse : parse_source_type_name (b ".a.b.Outer.Inner") = (b "a.b", b "Outer.Inner").
 Proof. vm_compute. reflexivity. Qed.
+(* the bridge is not vacuous: D_ok (nested messages, two enums, a map of messages and a map of enums, a oneof, a proto3
+   optional, a repeated message field, a Timestamp and a wrapper) satisfies all three premises; its generated schema has
+   11 + 2 message classes + 2 Entry classes and 2 enums, and is c01_schema_ok ... *)
+Example C03_ex_bridge :
+  protoc_wf D_ok = true /\ names_ok w_field_name w_class_name w_member_name D_ok = true /\ bridge_ok D_ok = true
+  /\ class_table_of w_field_name w_class_name w_member_name D_ok = Some T_ok
+  /\ table_ok T_ok = true /\ c01_schema_ok S_ok = true
+  /\ List.length (classes S_ok) = 15%nat /\ List.length (enums S_ok) = 2%nat.
+Proof. exact D_ok_bridge. Qed.
+Example C03_ex_bridge_schema : S_ok = schema_of_table T_ok.
+Proof. exact S_ok_eq. Qed.
+(* ... the generated class Outer is what one expects (number, proto type, hint, group, Entry class per field) ... *)
+Example C03_ex_bridge_outer :
+  map (fun f => (fnum f, fty f, fhint f, fgroup f, fentry f)) (cfields (get_class S_ok 11)) =
+  [(1, TMap, HDict Object.PyStr (PyMsg 12), None, 13%nat); (2, TInt32, HPlain Object.PyInt, Some 0%nat, 0%nat);
+   (3, TEnum, HPlain (PyEnum 0), Some 0%nat, 0%nat); (4, TDouble, HOptional Object.PyFloat, None, 0%nat);
+   (5, TMessage, HList (PyMsg 12), None, 0%nat); (6, TMessage, HPlain Object.PyDatetime, None, 0%nat);
+   (7, TMessage, HOptional Object.PyBool, None, 0%nat); (8, TMap, HDict Object.PyInt (PyEnum 0), None, 14%nat)].
+Proof. exact S_ok_outer. Qed.
+(* ... and a value of it that uses the map, the oneof (negative enum member selected), the optional, the repeated field,
+   the Timestamp and the wrapper satisfies c01_value_ok and round-trips (the premise of C03_generated_roundtrip is met) *)
+Example C03_ex_bridge_value :
+  c01_value_ok S_ok ok_outer = true /\ deep nan_free (PMsg ok_outer) = true /\ c01_holds S_ok ok_outer = true
+  /\ match enc_obj S_ok ok_outer with Ok bs => (30 < List.length bs)%nat | Err _ => False end.
+Proof. exact ok_outer_value. Qed.
+(* the reference theorems apply to D_ok: Outer.Inner (a nested message, class name OuterInner) is class 12, the nested
+   enum Outer.Inner.Kind is enum 1 *)
+Example C03_ex_bridge_refs :
+  In (SymMsg (b "p.q") [b "Outer"; b "Inner"] (mkMsg (b "Inner")
+        [mkField (b "back") 1 1 11 (b ".p.q.Outer") None false; mkField (b "k") 2 1 14 (b ".p.q.Outer.Inner.Kind") None false]
+        [] [mkEnum (b "Kind") [(b "ZERO", 0)]] [] false)) (symbols D_ok)
+  /\ class_nodup w_class_name D_ok = true
+  /\ pyty_of (class_rows T_ok) (PyRef (b "p.q") (b "OuterInner")) = Some (PyMsg 12)
+  /\ pyty_of (class_rows T_ok) (PyRef (b "p.q") (b "OuterInnerKind")) = Some (PyEnum 1).
+Proof. vm_compute. repeat split; try reflexivity. right. right. right. right. right. right. right. right. right. right. right. left. reflexivity. Qed.
